@@ -2,10 +2,12 @@
   C20 — property theorems (model: ShelxModel/C20.lean), over exact real arithmetic.
 -/
 import ShelxModel.C20
+import ShelxProps.Lemmas.C20Jacobi
 import Mathlib.Tactic.Ring
 import Mathlib.Tactic.Linarith
 import Mathlib.Tactic.LinearCombination
 import Mathlib.Tactic.NormNum
+import Mathlib.Tactic.FieldSimp
 import Mathlib.Data.Real.Basic
 
 namespace Shelx.C20
@@ -353,6 +355,58 @@ theorem centroid_mean (isZero : ℝ → Bool) (hz : ∀ x, isZero x = true ↔ x
   have hnz : ¬ (isZero (pts.length : ℝ) = true) := by
     rw [hz]; linarith
   simp [hnz]
+
+/-! ### one Jacobi rotation (convergence of the sweeps is NOT proved; each run certifies the result instead)
+
+  `jacobiRot i j c s b` is the body of the innermost `if` of `jacobi` once `c`, `s` are chosen. Lemmas
+  `jacobiRot_v`, `jacobiRot_a`, `givens_orth` (ShelxProps/Lemmas/C20Jacobi.lean) show that the in-place index loops
+  compute `V·G` and `Gᵀ·A·G` for the Givens matrix `G`; hence the invariant below. -/
+
+/-- the invariant of the Jacobi iteration: `Vᵀ N₀ V` is the matrix held in `matrix`/`eigenval`, and `VᵀV = 1` -/
+def JInv (n0 : Nat → Nat → ℝ) (st : JState ℝ) : Prop :=
+  (∀ r k, r < 4 → k < 4 → mul4 (tr4 (fun p q => st.v p q)) (mul4 n0 (fun p q => st.v p q)) r k = symOf st.a st.d r k) ∧
+  (∀ r k, r < 4 → k < 4 → mul4 (tr4 (fun p q => st.v p q)) (fun p q => st.v p q) r k = delta4 r k)
+
+theorem jacobi_step_invariant (n0 : Nat → Nat → ℝ) (i j : Nat) (hij : i < j) (hj : j < 4) (c s : ℝ) (st : JState ℝ)
+    (hcs : c * c + s * s = 1)
+    (hzero : (c * c - s * s) * st.a i j - c * s * (st.d j - st.d i) = 0)
+    (hinv : JInv n0 st) : JInv n0 (jacobiRot i j c s (st.a i j) st) := by
+  obtain ⟨hA, hO⟩ := hinv
+  have hv := jacobiRot_v i j hij hj c s (st.a i j) st
+  have ha := jacobiRot_a i j hij hj c s st hzero
+  have hg := givens_orth i j hij hj c s hcs
+  constructor
+  · intro r k hr hk
+    rw [ha r k hr hk]
+    have e : mul4 (tr4 (fun p q => (jacobiRot i j c s (st.a i j) st).v p q)) (mul4 n0 (fun p q => (jacobiRot i j c s (st.a i j) st).v p q)) r k
+        = mul4 (tr4 (mul4 (fun p q => st.v p q) (givens i j c s))) (mul4 n0 (mul4 (fun p q => st.v p q) (givens i j c s))) r k := by
+      simp only [mul4, tr4, hv 0 r (by omega) hr, hv 1 r (by omega) hr, hv 2 r (by omega) hr, hv 3 r (by omega) hr, hv 0 k (by omega) hk, hv 1 k (by omega) hk, hv 2 k (by omega) hk, hv 3 k (by omega) hk]
+    rw [e, mul4_assoc3]
+    generalize mul4 (tr4 (fun p q => st.v p q)) (mul4 n0 (fun p q => st.v p q)) = X at hA
+    simp only [mul4, tr4, hA 0 0 (by omega) (by omega), hA 0 1 (by omega) (by omega), hA 0 2 (by omega) (by omega), hA 0 3 (by omega) (by omega), hA 1 0 (by omega) (by omega), hA 1 1 (by omega) (by omega), hA 1 2 (by omega) (by omega), hA 1 3 (by omega) (by omega), hA 2 0 (by omega) (by omega), hA 2 1 (by omega) (by omega), hA 2 2 (by omega) (by omega), hA 2 3 (by omega) (by omega), hA 3 0 (by omega) (by omega), hA 3 1 (by omega) (by omega), hA 3 2 (by omega) (by omega), hA 3 3 (by omega) (by omega)]
+  · intro r k hr hk
+    have e : mul4 (tr4 (fun p q => (jacobiRot i j c s (st.a i j) st).v p q)) (fun p q => (jacobiRot i j c s (st.a i j) st).v p q) r k
+        = mul4 (tr4 (mul4 (fun p q => st.v p q) (givens i j c s))) (mul4 (fun p q => st.v p q) (givens i j c s)) r k := by
+      simp only [mul4, tr4, hv 0 r (by omega) hr, hv 1 r (by omega) hr, hv 2 r (by omega) hr, hv 3 r (by omega) hr, hv 0 k (by omega) hk, hv 1 k (by omega) hk, hv 2 k (by omega) hk, hv 3 k (by omega) hk]
+    rw [e, mul4_assoc2, ← hg r k hr hk]
+    generalize mul4 (tr4 (fun p q => st.v p q)) (fun p q => st.v p q) = X at hO
+    simp only [mul4, tr4, hO 0 0 (by omega) (by omega), hO 0 1 (by omega) (by omega), hO 0 2 (by omega) (by omega), hO 0 3 (by omega) (by omega), hO 1 0 (by omega) (by omega), hO 1 1 (by omega) (by omega), hO 1 2 (by omega) (by omega), hO 1 3 (by omega) (by omega), hO 2 0 (by omega) (by omega), hO 2 1 (by omega) (by omega), hO 2 2 (by omega) (by omega), hO 2 3 (by omega) (by omega), hO 3 0 (by omega) (by omega), hO 3 1 (by omega) (by omega), hO 3 2 (by omega) (by omega), hO 3 3 (by omega) (by omega)]
+    simp only [delta4]
+    norm_num
+
+/-- the `c`, `s` that `jacobi` computes (`t` a root of `b t² + (d_j − d_i) t − b = 0` — over ℝ the code's
+    `t = sgn(q)/(|q| + sqrt(1 + q²))`, `q = (d_j − d_i)/(2b)` is one —, `c = 1/sqrt(t² + 1)`, `s = t·c`) meet the two
+    hypotheses of `jacobi_step_invariant`; `r` stands for `sqrt(t·t + 1)` -/
+theorem rot_params_ok (b dma t r : ℝ) (hr : r * r = t * t + 1) (hr0 : r ≠ 0) (ht : b * t * t + dma * t - b = 0) :
+    (1 / r) * (1 / r) + (t * (1 / r)) * (t * (1 / r)) = 1 ∧
+    ((1 / r) * (1 / r) - (t * (1 / r)) * (t * (1 / r))) * b - (1 / r) * (t * (1 / r)) * dma = 0 := by
+  have h2 : (1 / r) * (1 / r) * (t * t + 1) = 1 := by rw [← hr]; field_simp
+  constructor
+  · linear_combination h2
+  · linear_combination (-((1 / r) * (1 / r))) * ht
+
+example : ((3:ℝ)/5) * (3/5) + (4/5) * (4/5) = 1 ∧ (((3:ℝ)/5) * (3/5) - (4/5) * (4/5)) * 12 - (3/5) * (4/5) * (-7) = 0 := by
+  norm_num
 
 /-! ### the code as found (snapshot b553572): witness of the two defects, exact arithmetic over `Rat`
 
